@@ -97,10 +97,7 @@ pub fn replay(path: &Path) -> i32 {
             }
         }
         "H" => {
-            println!("history / simultaneous-run records carry their full detail in the file; re-run `./check C{prop:02} quick` to re-derive them");
-            println!("{}", serde_json::to_string_pretty(&v["job"]["detail"]).unwrap_or_default());
-            println!("{}", v["result"].as_str().unwrap_or(""));
-            return 0;
+            return crate::props_hist::replay_h(prop, &spec, &v["job"]["detail"], &choices);
         }
         _ => {
             eprintln!("unknown engine {engine}");
